@@ -349,6 +349,33 @@ func cleanupLogic(c *Ctx) {
 		if okp {
 			okp, _ = an.ImpliesDNF(g, an.DNF{conj(lit(sL, an.SPos))})
 		}
+		if !okp && len(vs) == 1 {
+			// a single exit that returns a computed flag (`applied := shift > 0; if applied { ... }; return applied`): the
+			// flag is true only for s > 0, and on the paths where it is true - the true edge of its own test - the
+			// reslice was passed
+			if _, isB := constBool(vs[0]); !isB {
+				l := P.CondLit(vs[0], true)
+				pos := l.Form == lit(sL, an.SPos).Form && l.Set == lit(sL, an.SPos).Set
+				ifs, negs := P.IfsOn(q.fn, func(cond ssa.Value) bool { return cond == vs[0] })
+				var cuts []an.EdgeCut
+				for i, ifi := range ifs {
+					fs := 1
+					if negs[i] {
+						fs = 0
+					}
+					cuts = append(cuts, cutEdge(ifi, fs))
+				}
+				through := len(ifs) > 0 && !P.PathExists(q.fn, nil, an.Is(r), an.Is(sl), func(b *ssa.BasicBlock, i int) bool {
+					for _, c := range cuts {
+						if c(b, i) {
+							return true
+						}
+					}
+					return false
+				})
+				okp = pos && through
+			}
+		}
 		q.add("COND", "a cleanup pass reports a change only if it removed at least one value", okp,
 			pickS(okp, "the true return is reached only after buffer[s:] with s > 0 (tested after the clamp)", "cleanupLogic can report a change after a shift of 0 (e.g. the clamp to len(buffer) applied after the s <= 0 test): the cleaner repeats the pass for ever with the buffer locked"), r)
 	}
@@ -370,6 +397,20 @@ func cleanupLogic(c *Ctx) {
 			imp := len(g) > 0
 			if imp {
 				imp, _ = an.ImpliesDNF(g, an.DNF{an.Conj{l.Form: l.Set}})
+			}
+			if !imp {
+				// the flag returned is the very value whose true edge guards the reslice: wherever the reslice was
+				// passed, it is true (an SSA value does not change)
+				ifs, negs := P.IfsOn(q.fn, func(cond ssa.Value) bool { return cond == v })
+				for i, ifi := range ifs {
+					ts := 0
+					if negs[i] {
+						ts = 1
+					}
+					if q.onlyViaEdge(sl, ifi, ts) {
+						imp = true
+					}
+				}
 			}
 			okr = okr && imp
 		}
